@@ -30,7 +30,7 @@ structure MonV where
   popped : List Nat
   /-- notifications `(oldValue, newValue)` delivered to subscribers, newest first -/
   log : List (Int × Int)
-  deriving DecidableEq, Repr
+  deriving DecidableEq, Repr, Hashable
 
 structure WThV where
   base : WTh
@@ -38,7 +38,7 @@ structure WThV where
   vals : List Nat
   /-- return values of `Set` (old value) / `Update` (new value), newest first -/
   rets : List Int
-  deriving DecidableEq, Repr
+  deriving DecidableEq, Repr, Hashable
 
 def WThV.new (script : List WOp) : WThV := ⟨WTh.new script, [], []⟩
 
